@@ -167,7 +167,9 @@ def check_joins(ctx, frames_specs):
             ctx.feed(enc_join(ctx.version, *spec), settle=False)
         ctx.loop.settle()
         ctx.loop.advance(1.0)
-    except Exception as e:  # noqa
+    except (KeyboardInterrupt, SystemExit):
+        raise
+    except BaseException as e:  # noqa  (a CancelledError escaping from the receive path is a BaseException)
         return f"raised {type(e).__name__}: {e}"
     exp_j, exp_l = [], []
     for nwk, ieee, status, decision, parent in frames_specs:
@@ -337,6 +339,65 @@ def same_object_reset_job(version):
     return n, viol
 
 
+JOIN_FATES = ["pending", "finished", "first-command-unanswered", "second-command-unanswered", "first-command-refused", "disconnect-reconnect"]
+OVERRIDE_IEEES = [bytes([0x11, 0x22, 0x33, 0x44, 0x55, 0x8C, 0xCF, 0x04]), bytes([0x66, 0x22, 0x33, 0x44, 0x55, 0x44, 0xEF, 0x54])]
+
+
+def join_history_job(version):
+    """Trust-centre joins of devices whose IEEE prefix starts the temporary manufacturer-code override, with every fate of that
+    background work in between: still pending, finished, its first or second command unanswered (command time-out), its first
+    command refused, the application disconnected and connected again.  Every join must still be reported exactly once."""
+    import logging
+
+    logging.disable(logging.CRITICAL)
+    viol = []
+    n = 0
+    seqs = [(f,) for f in JOIN_FATES] + list(itertools.product(JOIN_FATES, repeat=2))
+    for fates in seqs:
+        ctx = Ctx(version)
+        hist = []
+        try:
+            nwk = 0x0010
+            for k, fate in enumerate(fates + ("end",)):
+                calls = {"n": 0}
+
+                def mfg(a, fate=fate, calls=calls):
+                    calls["n"] += 1
+                    if fate == "first-command-unanswered" and calls["n"] == 1:
+                        return None
+                    if fate == "second-command-unanswered" and calls["n"] == 2:
+                        return None
+                    if fate == "first-command-refused" and calls["n"] == 1:
+                        return ("__raw__", 0x58, b"\x36")
+                    return []
+
+                ctx.ncp.handlers["setManufacturerCode"] = mfg
+                specs = [(nwk, OVERRIDE_IEEES[k % 2], 1, 0, 0x1234)]
+                if fate == "end":
+                    specs.append((nwk + 1, bytes([1, 0, 0, 0, 0, 0, 0, 0]), 0, 0, 0x0000))
+                nwk += 2
+                n += 1
+                m = check_joins(ctx, specs)
+                hist.append(fate)
+                if m:
+                    viol.append((f"C13|join-history|{m.split(' reported')[0][:40]}", f"v{version}, joins with manufacturer-code override, earlier override: {hist[:-1]}: {m}",
+                                 {"world": "c13", "kind": "join-history", "version": version}))
+                    break
+                if fate in ("finished", "second-command-unanswered"):
+                    ctx.loop.advance(200.0)
+                elif fate in ("first-command-unanswered", "first-command-refused"):
+                    ctx.loop.advance(15.0)
+                elif fate == "disconnect-reconnect":
+                    t = ctx.loop.create_task(ctx.app.disconnect())
+                    ctx.loop.settle()
+                    if not t.done() or t.exception() is not None:
+                        raise explore.InternalError(f"C13 harness: disconnect() did not complete: {t!r}")
+                    ctx.reconnect(version)
+        finally:
+            ctx.close()
+    return n, viol
+
+
 RECONNECT_SEQS = [(13, 14, 13), (14, 13), (4, 14, 8), (8, 9), (14, 14, 4), (12, 14)]
 
 
@@ -344,6 +405,7 @@ def main(tier: str) -> int:
     rep = report.Report("C13", tier, "exploration")
     rec = explore.pool().map(reconnect_job, RECONNECT_SEQS + ([(a, b) for a in range(4, 15) for b in range(4, 15) if a != b] if tier != "quick" else []))
     rec += explore.pool().map(same_object_reset_job, list(ezspenv.VERSIONS))
+    rec += explore.pool().map(join_history_job, list(ezspenv.VERSIONS))
     results = sorted(explore.pool().imap_unordered(job, [(v, tier) for v in ezspenv.VERSIONS], chunksize=1), key=lambda r: r[0])
     total = packets = 0
     for n, viol in rec:
@@ -379,6 +441,11 @@ def main(tier: str) -> int:
 def replay(data) -> int:
     if data["kind"] == "same-object-reset":
         n, viol = same_object_reset_job(data["version"])
+        for v in viol:
+            print("VIOLATION:", v[1])
+        return 1 if viol else 0
+    if data["kind"] == "join-history":
+        n, viol = join_history_job(data["version"])
         for v in viol:
             print("VIOLATION:", v[1])
         return 1 if viol else 0
